@@ -3,7 +3,8 @@
 currency, the file after a fault at every likelihood call, and the blob
 overwrite arithmetic of dump_pickle_to_hdf (harness.blob)."""
 
-from harness.common import main
+from harness import blob
+from harness.common import main, sx
 from harness.loop_base import LoopCheck
 
 
@@ -11,7 +12,7 @@ class C12(LoopCheck):
     pid = "C12"
     props = {"C12"}
     flows = ("cadence", "resume")
-    required_labels = ["c12/cadence", "c12/payload_current", "c12/file_is_latest_payload"]
+    required_labels = ["c12/cadence", "c12/payload_current", "c12/file_is_latest_payload", "c12/blob_length", "c12/blob_content"]
 
     def configs(self, tier):
         out = []
@@ -23,7 +24,28 @@ class C12(LoopCheck):
             else:
                 c["every_values"] = [1, 2, 3]
             out.append(c)
+        out += blob.configs(tier)
         return out
+
+    def ctx_for(self, cfg, seed):
+        if cfg.get("kind") == "blob":
+            return sx.Ctx(self.pid, seed=seed, timeout_ms=60000)
+        return super().ctx_for(cfg, seed)
+
+    def harness(self, cfg):
+        if cfg.get("kind") == "blob":
+            return blob.harness(cfg)
+        return super().harness(cfg)
+
+    def to_cex(self, fl):
+        if fl["cfg"].get("kind") == "blob":
+            return blob.to_cex(fl)
+        return super().to_cex(fl)
+
+    def replay(self, cex):
+        if cex["cfg"].get("kind") == "blob":
+            return blob.replay(cex)
+        return super().replay(cex)
 
 
 if __name__ == "__main__":
